@@ -208,6 +208,16 @@ def setup_selection(u):
         from pyvc.core import Unsupported
 
         raise Unsupported("MemoryUserManager.get_user: selection loop not found")
+    # the variable that carries the selection: the one the loop assigns its own loop variable to (name read from the AST)
+    loop = body[-1]
+    tgt = loop.target.id if isinstance(loop.target, _ast.Name) else None
+    sel = [n.targets[0].id for n in _ast.walk(loop) if isinstance(n, _ast.Assign) and isinstance(n.value, _ast.Name) and n.value.id == tgt and isinstance(n.targets[0], _ast.Name)]
+    if tgt is None or not sel or len(set(sel)) != 1:
+        from pyvc.core import Unsupported
+
+        raise Unsupported("MemoryUserManager.get_user: selection variable not identified")
+    SEL = sel[0]
+    it.hooks["block_loop"] = LoopSpec(invariants=[("no-exact-match-so-far-and-user-is-the-first-anonymous-so-far", lambda S: sel_inv(S, SEL))], shapes={SEL: sel_user_shape})
 
     def make(it_, idx):
         o = Obj(mod.attrs["User"], tag="user[i]")
@@ -224,7 +234,7 @@ def setup_selection(u):
     def run(i, a, k):
         def go():
             i.exec_block(body, env, "MemoryUserManager.get_user.<locals>")
-            return env.vars["user"]
+            return env.vars[SEL]
 
         return Coro(go, "get_user-selection")
 
@@ -240,14 +250,14 @@ def _sel_state(S_or_env, table):
     return None
 
 
-def sel_inv(S):
+def sel_inv(S, SEL="user"):
     """consumed k entries without break: none of them is an exact match; `user` is None iff none of them is anonymous,
     otherwise it is the FIRST anonymous entry among them"""
     it = S.it
     table, login = S.vars["table"], S.vars["login"]
     k = S.vars["_i"]
     k = k.t if isinstance(k, SV) else z3.IntVal(k)
-    user = S.vars["user"]
+    user = S.vars[SEL]
     i = z3.Int("i!sel")
     no_exact = z3.ForAll([i], z3.Implies(z3.And(i >= 0, i < k), z3.Not(_exact(i, login))))
     if user is None:
@@ -271,7 +281,6 @@ def sel_user_shape(it):
 import itertools as _it2  # noqa: E402
 
 _sel_ctr = _it2.count()
-c.env_hooks = {"block_loop": LoopSpec(invariants=[("no-exact-match-so-far-and-user-is-the-first-anonymous-so-far", sel_inv)], shapes={"user": sel_user_shape})}
 
 
 def sel_post(S):
